@@ -17,7 +17,8 @@ USE_CANDS = ["{b}{n}.scss", "{b}_{n}.scss", "{b}{n}/index.scss", "{b}{n}/_index.
 IMPORT_CANDS = ["{b}{n}.import.scss", "{b}_{n}.import.scss", "{b}{n}.scss", "{b}_{n}.scss",
                 "{b}{n}/index.import.scss", "{b}{n}/_index.import.scss", "{b}{n}/index.scss", "{b}{n}/_index.scss",
                 "{b}{n}.css", "{b}_{n}.css"]
-KINDS = {"i": "import", "I": "import", "u": "use", "f": "forward", "l": "loadCss"}
+KINDS = {"i": "import", "I": "import", "u": "use", "f": "forward", "l": "loadCss", "U": "use", "F": "forward"}
+CONFIGURED = "UF"  # `@use … with (…)` / `@forward … with (…)`
 
 
 def line(files, root="in.scss", roots=".", faults="-", limit=LIMIT, op="load"):
@@ -136,6 +137,8 @@ def spec_walk(pc):
                 raise Loop()
             if kind in ("use", "forward"):
                 if p in modules:
+                    if code == "U":
+                        raise Stop()  # a loaded module can't be configured by @use (error since 23c2f01)
                     continue
                 execs[p] = execs.get(p, 0) + 1
                 loading.append(p)
